@@ -594,6 +594,109 @@ fn listing_case(rng: &mut Rng, id: &str, g: &str, lang: &str) -> Vec<String> {
     l
 }
 
+/// Bytes without short repeats (period 251 * 256): `n` literal tokens for n <= 4200.
+fn distinct_bytes(n: usize, salt: usize) -> Vec<u8> {
+    (0..n).map(|i| ((i * 37 + 11 + salt + (i / 251) * 101) & 0xFF) as u8 ^ ((i / 251) as u8).wrapping_mul(29)).collect()
+}
+
+/// Payloads at the codecs' boundaries (C12 on compressed paths; both formats):
+/// * runs of `n` equal bytes: match lengths n-2 around 3 / 16-18 (LZ10 maximum, LZ11 two-byte form) /
+///   272-273 (LZ11 three-/four-byte forms) / 4096;
+/// * a block of `d` bytes, its first `m` bytes again, then a byte that stops the match: displacement `d`
+///   in {2, 3, 4095, 4096, 4097} with match length exactly `m`;
+/// * literal-only payloads and literal+reference payloads that end exactly on a flag group (8, 16, 24 tokens).
+/// `big` = payloads of 4 KiB and more (sampled in the quick tier).
+fn lz_boundary_payloads(rng: &mut Rng) -> (Vec<Vec<u8>>, Vec<Vec<u8>>) {
+    let mut small: Vec<Vec<u8>> = Vec::new();
+    let mut big: Vec<Vec<u8>> = Vec::new();
+    let fill = (rng.below(200) + 20) as u8;
+    for n in [0usize, 1, 2, 3, 4, 5, 6, 17, 18, 19, 20, 21, 22, 271, 272, 273, 274, 275, 276, 277] {
+        small.push(vec![fill; n]);
+        // the run embedded between other bytes
+        if n >= 3 {
+            let mut v = vec![fill ^ 0x55, fill ^ 0x33];
+            v.extend(vec![fill; n]);
+            v.push(fill ^ 0x0F);
+            small.push(v);
+        }
+    }
+    for n in [4095usize, 4096, 4097, 4098, 4099, 4100, 4101] {
+        big.push(vec![fill; n]);
+    }
+    let block_repeat = |d: usize, m: usize, salt: usize| -> Vec<u8> {
+        let block = distinct_bytes(d.max(m), salt);
+        let mut v = block[..d].to_vec();
+        // the first m bytes of the block again (periodic continuation when m > d)
+        for i in 0..m {
+            let b = v[i];
+            v.push(b);
+        }
+        let stop = v[m] ^ 0xFF;
+        v.push(stop);
+        v.push(stop ^ 0x5A);
+        v
+    };
+    for d in [2usize, 3] {
+        for m in [2usize, 3, 4, 16, 17, 18, 19, 271, 272, 273, 274] {
+            small.push(block_repeat(d, m, d));
+        }
+    }
+    for m in [3usize, 17, 18, 19, 272, 273] {
+        small.push(block_repeat(m, m, 7)); // a block repeated once
+        small.push(block_repeat(m + 40, m, 9));
+    }
+    for d in [4095usize, 4096, 4097] {
+        for m in [3usize, 18, 19, 272, 273] {
+            big.push(block_repeat(d, m, d));
+        }
+    }
+    for m in [4095usize, 4096, 4097] {
+        big.push(block_repeat(2, m, m));
+    }
+    for n in [7usize, 8, 9, 15, 16, 17, 23, 24, 25] {
+        small.push(distinct_bytes(n, n));
+        // n - 1 literals and one reference: exactly n tokens
+        if n >= 8 {
+            let mut v = distinct_bytes(n - 1, n + 1);
+            let head: Vec<u8> = v[..3].to_vec();
+            v.extend(head);
+            small.push(v);
+        }
+    }
+    (small, big)
+}
+
+/// One history on a compressed path: every payload is written over the previous one (longer and
+/// shorter), read back raw and through the existence query; a lower layer holds another file of the
+/// same name; finally a short payload replaces the last one.
+fn lz_case(rng: &mut Rng, id: &str, g: &str, lang: &str, payloads: &[Vec<u8>]) -> Vec<String> {
+    let mut s0: Vec<Vec<u8>> = vec![b"hi".to_vec()];
+    for p in payloads {
+        if !s0.contains(p) {
+            s0.push(p.clone());
+        }
+    }
+    let name = if is_lz10_game(g) { *rng.pick(&["z/f.cms", "z/f.cmp", "z/q/f.bin.cms"]) } else { *rng.pick(&["z/f.lz", "z/f.bin.lz", "z/q/f.lz"]) };
+    let loc = rng.chance(1, 3);
+    // the lower layer has the file too (unlocalised and localised location)
+    let mut wishes = vec![(name.to_string(), Ent::File(0))];
+    if let Some(q) = localized(g, lang, name) {
+        wishes.push((q, Ent::File(0)));
+    }
+    let trees = vec![build_tree(&wishes), build_tree(&[("z".to_string(), Ent::Dir)])];
+    let mut l = vec![new_line(id, g, lang, &s0, &[None, None, None, None], &trees)];
+    let ph = hexs(name);
+    let lb = b01(loc);
+    for i in 1..s0.len() {
+        l.push(format!("{} write {} p{} {}", id, ph, i, lb));
+        l.push(format!("{} read {} {}", id, ph, lb));
+    }
+    l.push(format!("{} file_exists {} {}", id, ph, lb));
+    l.push(format!("{} write {} p0 {}", id, ph, lb));
+    l.push(format!("{} read {} {}", id, ph, lb));
+    l
+}
+
 /// The POSIX / std behaviours the model fixes (DESIGN §6 C12 modelling notes), each determined by
 /// experiment against the real code; also kept as corpus cases `corpus/C12/posix-*.case`.
 fn posix_cases(rng: &mut Rng, id_q: &str, id_w: &str) -> Vec<String> {
@@ -674,8 +777,34 @@ pub fn gen(seed: u64, tier: &str) -> Vec<String> {
         let id = next_id(&mut n);
         lines.extend(listing_case(&mut rng, &id, g, lang));
     }
+    // B2. codec boundaries on compressed paths (C12), both formats
+    let prop = std::env::var("VERIF_PROP").unwrap_or_default();
+    if prop.is_empty() || prop == "C12" {
+        let (small, big) = lz_boundary_payloads(&mut rng);
+        for fmt in 0..2 {
+            let games: &[&str] = if fmt == 0 { &["FE9", "FE10"] } else { &["FE13", "FE14", "FE15"] };
+            for chunk in small.chunks(8) {
+                let g = *rng.pick(games);
+                let lang = *rng.pick(&["EnglishNA", "Japanese", "French", "German"]);
+                let id = next_id(&mut n);
+                lines.extend(lz_case(&mut rng, &id, g, lang, chunk));
+            }
+            // big payloads: all of them in thorough, a rotating sample in quick
+            let mut picks: Vec<&Vec<u8>> = big.iter().collect();
+            if !thorough {
+                rng.shuffle(&mut picks);
+                picks.truncate(4);
+            }
+            for chunk in picks.chunks(2) {
+                let g = *rng.pick(games);
+                let id = next_id(&mut n);
+                let v: Vec<Vec<u8>> = chunk.iter().map(|p| (*p).clone()).collect();
+                lines.extend(lz_case(&mut rng, &id, g, "EnglishNA", &v));
+            }
+        }
+    }
     // C. random histories; games x languages round-robin so that every pair occurs
-    let cases = if thorough { 12000 } else { 1000 };
+    let cases = if thorough { 12000 } else if prop == "C12" { 600 } else { 800 };
     for i in 0..cases {
         let g = GAMES[(i + seed as usize) % 5];
         let lang = LANGS[((i / 5) + seed as usize) % 8];
@@ -876,7 +1005,9 @@ pub fn run_line(st: &mut super::State, line: &str) -> String {
                                 _ => '0',
                             })
                             .collect();
-                        format!("ok {} {}", v.iter().map(|x| hexs(x)).collect::<Vec<_>>().join(","), bits)
+                        // (a correct listing is layer-relative; never print a temp-dir name)
+                        let base = s.base.to_str().unwrap_or("?").to_string();
+                        format!("ok {} {}", v.iter().map(|x| hexs(&x.replace(&base, "BASE"))).collect::<Vec<_>>().join(","), bits)
                     }
                 }
             }
@@ -946,7 +1077,31 @@ fn run_new(st: &mut super::State, f: &[&str]) -> String {
         }
         roots.push(r.display().to_string());
     }
-    let r = no_panic(|| LayeredFilesystem::new(roots.clone(), language(lang), game(g)));
+    // The roots are handed to `new` in non-canonical spellings chosen per layer from the case id (the
+    // property speaks about layer contents, not about how a root is spelled): `l1/../l1`, `./l1`,
+    // trailing slash, doubled slash, through a symlink (exercised, not modelled).
+    let mut given = Vec::new();
+    for (i, r) in roots.iter().enumerate() {
+        let b = base.display().to_string();
+        let k = fnv(&format!("{}#{}", id, i)) % 7;
+        let sp = match k {
+            1 => format!("{}/l{}/../l{}", b, i, i),
+            2 => format!("{}/./l{}", b, i),
+            3 => format!("{}/", r),
+            4 => format!("{}//l{}", b, i),
+            5 => {
+                let link = base.join(format!("s{}", i));
+                match std::os::unix::fs::symlink(format!("l{}", i), &link) {
+                    Ok(()) => link.display().to_string(),
+                    Err(_) => r.clone(),
+                }
+            }
+            6 => format!("{}/l{}/./../l{}/", b, i, i),
+            _ => r.clone(),
+        };
+        given.push(sp);
+    }
+    let r = no_panic(|| LayeredFilesystem::new(given.clone(), language(lang), game(g)));
     let (fs, out) = match r {
         Err(_) => (None, "panic".to_string()),
         Ok(Err(e)) => (None, format!("err {}", err_class(&e))),
